@@ -1,7 +1,140 @@
-(* C04 — pipeline placeholder; replaced by the real statements *)
-From Gdsl.Model Require Import Base NodeOps.
-From Gdsl.Proofs Require Import NodeLemmas.
+(* C04 — Breadth-first search finds a shortest path iff one exists.
+   Model: coq/model/Search.v (`wl_scan`/`wl_loop` with the FIFO queue, `backtrack`; entry points search_path /
+   search_find with kind KBfs; any direction d: DOut, DIn (= transpose()), DAdj (undirected)). `accept` is an
+   arbitrary pure filter; PureCb covers Method::Empty, ForEach(recorder) and Filter(pure f).
+   The generic theorems are stated for every worklist kind k <> KDfs (bfs and both pfs modes); the queue
+   hypothesis of coq/proofs/Worklist.v is discharged by StdHeap.stdheap_qspec in SearchGlue.v. *)
+From Gdsl.Model Require Import Spec Callback.
+From Gdsl.Proofs Require Import Worklist Bfs SearchGlue.
 
-Theorem C04_placeholder_to_nil : forall (E : Type) v, to_ v (@nil (nat * E)) = [].
-Proof. exact to_nil. Qed.
-Print Assumptions C04_placeholder_to_nil.
+(* a returned path starts at the root, ends at the node carrying the target key, is made of accepted stored edges (with their stored values) joined end to start *)
+Theorem c04_path_sound :
+  forall (K V E : Type) (keqb : K -> K -> bool),
+       KeqbSpec keqb ->
+       forall (CB : Type) (cb : CB -> heap K V E -> edge E -> CB * heap K V E * bool)
+         (accept : edge E -> bool) (vleb : V -> V -> bool) (h : heap K V E),
+       Wf h ->
+       KeysInj h ->
+       PureCb h cb accept ->
+       forall (d : dir) (root : nat),
+       root < size h ->
+       forall (c0 : CB) (k : kind) (fuel : nat) (t : K) (st : sst K V E CB) (p : list (edge E)),
+       k <> KDfs ->
+       keyof h root <> Some t ->
+       search_path keqb cb vleb k d fuel h c0 root (Some t) false = (st, RPath p) ->
+       exists v : nat,
+         keyof h v = Some t /\
+         IsPath h d accept root p v /\
+         p <> [] /\ NoDup (map (edst (E:=E)) p) /\ ~ In root (map (edst (E:=E)) p).
+Proof. exact wlq_path_sound. Qed.
+Print Assumptions c04_path_sound.
+
+(* None only if no node with the target key is reachable through accepted edges *)
+Theorem c04_path_complete :
+  forall (K V E : Type) (keqb : K -> K -> bool),
+       KeqbSpec keqb ->
+       forall (CB : Type) (cb : CB -> heap K V E -> edge E -> CB * heap K V E * bool)
+         (accept : edge E -> bool) (vleb : V -> V -> bool) (h : heap K V E),
+       Wf h ->
+       KeysInj h ->
+       PureCb h cb accept ->
+       forall (d : dir) (root : nat),
+       root < size h ->
+       forall (c0 : CB) (k : kind) (fuel : nat) (t : K) (st : sst K V E CB),
+       k <> KDfs ->
+       keyof h root <> Some t ->
+       search_path keqb cb vleb k d fuel h c0 root (Some t) false = (st, RNone E) ->
+       forall v : nat, keyof h v = Some t -> ~ Reach h d accept root v.
+Proof. exact wlq_path_complete. Qed.
+Print Assumptions c04_path_complete.
+
+(* no accepted path to the target has fewer edges than the returned one *)
+Theorem c04_path_shortest :
+  forall (K V E : Type) (keqb : K -> K -> bool),
+       KeqbSpec keqb ->
+       forall (CB : Type) (cb : CB -> heap K V E -> edge E -> CB * heap K V E * bool)
+         (accept : edge E -> bool) (vleb : V -> V -> bool) (h : heap K V E),
+       Wf h ->
+       KeysInj h ->
+       PureCb h cb accept ->
+       forall (d : dir) (root : nat),
+       root < size h ->
+       forall (c0 : CB) (fuel : nat) (t : K) (st : sst K V E CB) (p : list (edge E)),
+       keyof h root <> Some t ->
+       search_path keqb cb vleb KBfs d fuel h c0 root (Some t) false = (st, RPath p) ->
+       forall (v : nat) (q : list (edge E)),
+       keyof h v = Some t -> IsPath h d accept root q v -> length p <= length q.
+Proof. exact bfs_path_shortest. Qed.
+Print Assumptions c04_path_shortest.
+
+(* search() returns the target node in exactly the cases in which search_path() returns a path *)
+Theorem c04_search_agrees :
+  forall (K V E : Type) (keqb : K -> K -> bool),
+       KeqbSpec keqb ->
+       forall (CB : Type) (cb : CB -> heap K V E -> edge E -> CB * heap K V E * bool)
+         (accept : edge E -> bool) (vleb : V -> V -> bool) (h : heap K V E),
+       Wf h ->
+       KeysInj h ->
+       PureCb h cb accept ->
+       forall (d : dir) (root : nat),
+       root < size h ->
+       forall (c0 : CB) (k : kind) (fuel : nat) (t : K),
+       k <> KDfs ->
+       keyof h root <> Some t ->
+       match snd (search_path keqb cb vleb k d fuel h c0 root (Some t) false) with
+       | RNone _ => snd (search_find keqb cb vleb k d fuel h c0 root (Some t)) = RNone E
+       | RPath p =>
+           exists (v : nat) (p0 : list (edge E)) (w : edge E),
+             snd (search_find keqb cb vleb k d fuel h c0 root (Some t)) = RNode E v /\
+             p = p0 ++ [w] /\ edst w = v /\ keyof h v = Some t
+       | RFuel _ => snd (search_find keqb cb vleb k d fuel h c0 root (Some t)) = RFuel E
+       | _ => False
+       end.
+Proof. exact wlq_find_agrees. Qed.
+Print Assumptions c04_search_agrees.
+
+(* fuel_bound suffices: the out-of-fuel outcome cannot occur *)
+Theorem c04_terminates :
+  forall (K V E : Type) (keqb : K -> K -> bool),
+       KeqbSpec keqb ->
+       forall (CB : Type) (cb : CB -> heap K V E -> edge E -> CB * heap K V E * bool)
+         (accept : edge E -> bool) (vleb : V -> V -> bool) (h : heap K V E),
+       Wf h ->
+       KeysInj h ->
+       PureCb h cb accept ->
+       forall (d : dir) (root : nat),
+       root < size h ->
+       forall (c0 : CB) (k : kind) (fuel : nat) (t : option K) (cyc : bool),
+       k <> KDfs ->
+       fuel_bound h <= fuel ->
+       snd (search_path keqb cb vleb k d fuel h c0 root t cyc) <> RFuel E /\
+       snd (search_find keqb cb vleb k d fuel h c0 root t) <> RFuel E.
+Proof. exact wlq_terminates. Qed.
+Print Assumptions c04_terminates.
+
+(* backtracking never hits the unwrap() on an empty tree *)
+Theorem c04_no_panic :
+  forall (K V E : Type) (keqb : K -> K -> bool),
+       KeqbSpec keqb ->
+       forall (CB : Type) (cb : CB -> heap K V E -> edge E -> CB * heap K V E * bool)
+         (accept : edge E -> bool) (vleb : V -> V -> bool) (h : heap K V E),
+       Wf h ->
+       KeysInj h ->
+       PureCb h cb accept ->
+       forall (d : dir) (root : nat),
+       root < size h ->
+       forall (c0 : CB) (k : kind) (fuel : nat) (t : option K) (cyc : bool),
+       k <> KDfs -> snd (search_path keqb cb vleb k d fuel h c0 root t cyc) <> RPanic E.
+Proof. exact wlq_no_panic. Qed.
+Print Assumptions c04_no_panic.
+
+
+Example c04_nonvacuous :
+  let ops : list (op nat nat nat) :=
+    [ONew 0 0; ONew 1 0; ONew 2 0; ONew 3 0; OConnect 0 1 10; OConnect 0 0 11; OConnect 0 2 12; OConnect 1 2 13; OConnect 2 3 14; OConnect 2 0 15] in
+  let h := fst (run_d Nat.eqb ops) in
+  let cb := (fun (c : unit) h' (_ : edge nat) => (c, h', true)) in
+  snd (search_path Nat.eqb cb Nat.leb KBfs DOut 100 h tt 0 (Some 3) false) = RPath [(0, 2, 12); (2, 3, 14)] /\
+  snd (search_path Nat.eqb cb Nat.leb KBfs DIn 100 h tt 3 (Some 1) false) = RPath [(3, 2, 14); (2, 1, 13)] /\
+  snd (search_path Nat.eqb cb Nat.leb KBfs DOut 100 h tt 3 (Some 1) false) = RNone nat.
+Proof. vm_compute. auto. Qed.
